@@ -104,4 +104,47 @@ Proof. by move=> srt i j; split; [exact: Exp_symm_qsm_closed_form | exact: Cosin
 (* SHO in its three regimes (critical, under- and over-damped outside the band |Q - 1/2| < 1e-3 that the source treats as critical) *)
 Theorem C08_SHO_laws w q sigma : sho_regime w q -> @ss_laws Rf R (k_SHO w q sigma).
 Proof. exact: SHO_laws. Qed.
+Theorem C08_Celerite_end_to_end a b c d (x0 : R) (xs : seq R) :
+  Rlt 0 c -> d <> 0%Rr -> Rle 0 (a * c - b * d)%Rr -> Rle 0 (a * c + b * d)%Rr -> Rsorted x0 xs ->
+  forall i j : 'I_(size xs),
+  den (size xs) (to_symm_qsm rfops (k_Celerite a b c d) x0 xs) i j
+  = (let tau := Rabs (nth x0 xs i - nth x0 xs j) in exp (- c * tau) * (a * cos (d * tau) + b * sin (d * tau)))%Rr.
+Proof. exact: Celerite_symm_qsm_closed_form. Qed.
+Print Assumptions C08_Celerite_end_to_end.
+(* SHO end to end: the symmetric matrix built from the generated SHO tables has the documented closed-form entries in each regime *)
+Theorem C08_SHO_end_to_end w q sigma (x0 : R) (xs : seq R) : Rsorted x0 xs ->
+  forall i j : 'I_(size xs),
+  let tau := Rabs (nth x0 xs i - nth x0 xs j) in
+  let entry q := den (size xs) (to_symm_qsm rfops (k_SHO w q sigma) x0 xs) i j in
+  [/\ entry (1 / 2)%Rr = (sigma * sigma * (exp (- w * tau) * (1 + w * tau)))%Rr,
+      Rle (1 / 2 + 1 / 1000)%Rr q -> w <> 0%Rr ->
+      entry q = (let g := sqrt (4 * (q * q) - 1) in
+                 sigma * sigma * (exp (- 1 / 2 * w * tau / q) * (cos (1 / 2 * g * w * tau / q) + sin (1 / 2 * g * w * tau / q) / g)))%Rr &
+      Rlt 0 q -> Rle q (1 / 2 - 1 / 1000)%Rr -> w <> 0%Rr ->
+      entry q = (let g := sqrt (1 - 4 * (q * q)) in
+                 sigma * sigma * (exp (- 1 / 2 * w * tau / q) * (cosh (1 / 2 * g * w * tau / q) + sinh (1 / 2 * g * w * tau / q) / g)))%Rr].
+Proof.
+move=> srt i j tau entry; split.
+- exact: SHO_symm_qsm_critical.
+- by move=> hq hw; exact: SHO_symm_qsm_under.
+- by move=> hq0 hq hw; exact: SHO_symm_qsm_over.
+Qed.
+Print Assumptions C08_SHO_end_to_end.
 Print Assumptions C08_Matern32_end_to_end.
+
+(* ---- every expression over quasiseparable kernels (C10's syntax): on sorted inputs the symmetric quasiseparable matrix of the
+   compiled kernel has the pointwise arithmetic of the leaves' values as entries ---- *)
+From TinyGP Require Import Theory.SSKExpr Theory.SSKExprR.
+Theorem C08_expression_symm_qsm (F : fieldType) sq lt (X : Type) (ltX : X -> X -> bool) (e : qexpr F X) (x0 : X) (xs : seq X) :
+  leaves_ok ltX e ->
+  (forall i j, (i <= j)%nat -> (j < size xs)%nat -> ~~ ltX (nth x0 xs j) (nth x0 xs i)) ->
+  forall i j : 'I_(size xs),
+  den (size xs) (to_symm_qsm (fops sq lt) (compile sq lt e) x0 xs) i j = value sq lt e (nth x0 xs i) (nth x0 xs j).
+Proof. exact: expr_symm_qsm_pointwise. Qed.
+Print Assumptions C08_expression_symm_qsm.
+
+Theorem C08_builtin_expression_symm_qsm (e : qexpr Rf R) (x0 : R) (xs : seq R) : over_builtins e -> Rsorted x0 xs ->
+  forall i j : 'I_(size xs),
+  den (size xs) (to_symm_qsm rfops (compile sqrt Rltb e) x0 xs) i j = value sqrt Rltb e (nth x0 xs i) (nth x0 xs j).
+Proof. exact: builtin_expression_symm_qsm. Qed.
+Print Assumptions C08_builtin_expression_symm_qsm.
